@@ -608,6 +608,7 @@ func (c *Ctx) gxRun() []*gxFamVerdict {
 				h := c.newGxHarness()
 				for i := w; i < len(f.items); i += nw {
 					item := f.items[i]
+					noteSample("GRAM.parse/"+f.name, "‹"+item+"›")
 					ls := lexemes(item)
 					acc, want := gxReference(ls)
 					got := h.parse(ls)
